@@ -64,4 +64,9 @@ theorem custom_modules_not_migrated :
     ∀ (S : Type) (m : Nat → S → S) (s : S), migrate m 1 1 s = s := by
   exact ⟨by decide, fun _ _ _ => rfl⟩
 
+/-- Restarting after the upgrade block yields the same node: the handlers' closures call nothing on the application's
+long-lived objects without the block context, so running one leaves nothing in memory that a restarted process would
+lack (F24; regenerated from `app/upgrades/*` on every run). -/
+theorem upgrade_handlers_touch_only_block_state : Panacea.Generated.handlerMemoryCalls = [] := by decide
+
 end Panacea.C19
